@@ -29,6 +29,8 @@ def initial_classes(kind, R, C):
         ("five", 5, [[5.0] * C for _ in range(real_r)]),
         ("max", 10, [[10.0] * C for _ in range(real_r)]),
         ("above", 11, [[11.0] * C for _ in range(real_r)]),
+        ("tiny", 2.5e-9, [[2.5e-9] * C for _ in range(real_r)]),
+        ("denormal", 5e-324, [[5e-324] * C for _ in range(real_r)]),
         ("negative", -1, None),
         ("nan", NAN, None),
         ("inf", INF, None),
@@ -41,6 +43,7 @@ def initial_classes(kind, R, C):
             ("flat-long", flat + [1.0], None),
             ("2d", [flat[r * C : (r + 1) * C] for r in range(R)], [flat[r * C : (r + 1) * C] for r in range(R)]),
             ("np2d", ("np", [flat[r * C : (r + 1) * C] for r in range(R)]), [flat[r * C : (r + 1) * C] for r in range(R)]),
+            ("flat-tiny", [1e-9] + flat[1:], [([1e-9] + flat[1:])[r * C : (r + 1) * C] for r in range(R)]),
             ("flat-nan", [NAN] + flat[1:], None),
             ("flat-neg", flat[:-1] + [-0.5], None),
             ("flat-above", flat[:-1] + [10.5], [(flat[:-1] + [10.5])[r * C : (r + 1) * C] for r in range(R)]),
@@ -51,6 +54,7 @@ def initial_classes(kind, R, C):
             ("percol", per, [per]),
             ("percol-short", per[:-1], None),
             ("percol-long", per + [1.0], None),
+            ("percol-tiny", [3e-9] + per[1:], [[3e-9] + per[1:]]),
             ("percol-nan", [NAN] + per[1:], None),
             ("percol-above", per[:-1] + [12.0], [per[:-1] + [12.0]]),
         ]
